@@ -22,4 +22,13 @@ PROPS = {
         assumptions=["addJitter's float64 arithmetic is abstracted to exact rational arithmetic (validated on every run by suite backoff with seeded draws)",
                      "time.Sleep sleeps at least the requested duration (Go runtime)"],
     ),
+    "C15": dict(
+        technique="Lean 4 theorems on a hand model of WebsocketNetConn (hex codec round trip, stream reassembly invariant for all write/read segmentations) + regenerated routing predicate (goextract T2); differential run of the real Read/Write against the model; end-to-end runs through the real bridge binaries under -race",
+        level_text="Proof for all byte strings, all write sizes (incl. empty), all read-buffer sizes and any interleaved non-text messages that successive Reads return exactly a prefix of the written stream and the whole stream given enough reads; hex round trip for all 256 byte values; routing predicate regenerated from connection.go. The Read/Write model is hand-written and compared with the real WebsocketNetConn on generated op sequences on every run.",
+        level_note=STD_NOTE + "Modelled, not verified: gorilla/websocket framing and in-order message delivery, TCP, io.Copy; the frontend/backend main loops are exercised end to end (real binaries), not modelled. Concurrency between connections: independence is structural in the model (no shared state) and checked by -race runs.",
+        suites=[dict(driver="lib", suite="bridgeconn"),
+                dict(driver="lib", suite="bridge", race="thorough",
+                     bins={"BRIDGE_FRONTEND": "utils/tcpbridge/tcp-bridge-frontend", "BRIDGE_BACKEND": "utils/tcpbridge/tcp-bridge-backend"})],
+        assumptions=["gorilla/websocket delivers messages in order, intact", "the two io.Copy loops per side are the only users of each connection"],
+    ),
 }
